@@ -367,6 +367,8 @@ def check(prop, tier, args):
         cov = agg.coverage(tier, explore_s)
         cov['known_findings_seen'] = [s for _, s, _ in known_hit]
         cov['determinism_pairs_checked'] = len(det_jobs)
+        cov['seeds'] = {'master_seed': seed, 'per_run_seed': 'sha256(master_seed / property / run index)[:8 bytes] -> one random.Random = one choice tape',
+                        'seeded_runs': agg.runs, 'seeds_per_hour': cov['runs_per_hour']}
         cov['build'] = {'tree_hash': B.tree_hash(), 'flavours': flavours}
         evidence['coverage'] = cov
         evidence['assumptions'] = list(getattr(eng, 'ASSUMPTIONS', []))
